@@ -1,4 +1,5 @@
 (* Source-text tie: all lemmas (one file per group of targets so that a broken group is identified by its file). *)
 Require Export MV.Proofs.SrcTieIndexP MV.Proofs.SrcTieRunP MV.Proofs.SrcTieTypesP MV.Proofs.SrcTieBaseP MV.Proofs.SrcTieChainP
   MV.Proofs.SrcTieLemP MV.Proofs.SrcTiePlanP MV.Proofs.SrcTieQueueP MV.Proofs.SrcTieTrekP MV.Proofs.SrcTieReorderP
-  MV.Proofs.SrcTieOptP MV.Proofs.SrcTieUpdP MV.Proofs.SrcTieValidP MV.Proofs.SrcTieNameP.
+  MV.Proofs.SrcTieOptP MV.Proofs.SrcTieUpdP MV.Proofs.SrcTieValidP MV.Proofs.SrcTieNameP
+  MV.Proofs.SrcTieTfsP MV.Proofs.SrcTieFilterP MV.Proofs.SrcTieWorkerP.
